@@ -5,7 +5,7 @@
 Require Import ZArith List String Bool Reals.
 Import ListNotations.
 From GLMV Require Import Expr SemR Cat Comm Chk SpecLinAlg SpecProj SpecGeom.
-From W Require Gen_C04 Gen_C04_WXYZ P_C04_a P_C04_euler P_C04_wxyz P_C04_axis P_C04_cast P_C04_aa P_C04_two.
+From W Require Gen_C04 Gen_C04_WXYZ P_C04_a P_C04_euler P_C04_wxyz P_C04_axis P_C04_cast P_C04_aa P_C04_two P_C04_derived.
 Local Open Scope string_scope.
 Theorem C04_rotation_by_quaternion_is_its_matrix : P_C04_a.rot_ok. Proof. exact P_C04_a.rot_def. Qed.
 Theorem C04_matrix_of_product_is_product_of_matrices : P_C04_a.prod_ok. Proof. exact P_C04_a.prod_def. Qed.
@@ -32,6 +32,12 @@ Theorem C04_float_pi_is_close : (0 <= 1 - P_C04_aa.A_ <= 1 / 2 ^ 40 /\ Rabs P_C0
 (* qua(u, v) rotates u onto the direction of v (standard branch), and onto -u on the nearly-opposite branch *)
 Theorem C04_two_vector_quaternion_rotates_u_to_v : P_C04_two.two_ok Gen_C04.t_two_vectors_rotate_u. Proof. exact P_C04_two.two_def. Qed.
 Theorem C04_two_vector_quaternion_opposite : P_C04_two.opp_ok Gen_C04.t_two_vectors_rotate_u. Proof. exact P_C04_two.opp_def. Qed.
+(* gtx derivedEulerAngleX/Y/Z(angle, speed) = speed * d/d(angle) eulerAngleX/Y/Z(angle), entry by entry; orientate2 / orientate3(angle) *)
+Theorem C04_derivedEulerAngleX_is_the_derivative : P_C04_derived.derived_ok Gen_C04.t_eulerAngleX Gen_C04.t_derivedEulerAngleX. Proof. exact P_C04_derived.derivedX. Qed.
+Theorem C04_derivedEulerAngleY_is_the_derivative : P_C04_derived.derived_ok Gen_C04.t_eulerAngleY Gen_C04.t_derivedEulerAngleY. Proof. exact P_C04_derived.derivedY. Qed.
+Theorem C04_derivedEulerAngleZ_is_the_derivative : P_C04_derived.derived_ok Gen_C04.t_eulerAngleZ Gen_C04.t_derivedEulerAngleZ. Proof. exact P_C04_derived.derivedZ. Qed.
+Theorem C04_orientate2_orientate3 : P_C04_derived.orientate_ok. Proof. exact P_C04_derived.orientate_def. Qed.
+Print Assumptions C04_derivedEulerAngleX_is_the_derivative.
 Print Assumptions C04_rotation_by_quaternion_is_its_matrix.
 Print Assumptions C04_matrix_of_product_is_product_of_matrices.
 Print Assumptions C04_inverse_conjugate_hamilton.
